@@ -29,7 +29,8 @@ TECHNIQUE = ("Lean 4 theorems (certified Bellman-Ford feasibility checker, post-
              "libvpsc and libavoid's private copy")
 RULE = ("groups of 3 cases share one problem+history (vpsc::IncSolver, Avoid::IncSolver, static vpsc::Solver on "
         "inequality DAGs); exhaustive small systems first, then seeded random DAGs / chains / stars / multigraphs / "
-        "k-cycles with total gap <,=,> 0 / equalities / scales / wild weights with histories of "
+        "k-cycles with total gap <,=,> 0 / equalities / scales / wild weights / 1/1024-grained data / makeFeasible-like "
+        "one-equality-at-a-time histories (eq-incr*, incl. consistent redundant equalities) with histories of "
         "addConstraint / move desired / satisfy / solve. A case is non-trivial if the model performed at least one "
         "merge, split or flagging (inc) or some constraint ended active (static).")
 TRUSTED_BASE = ["Lean 4.33 kernel", "axioms: propext, Classical.choice, Quot.sound",
